@@ -999,11 +999,116 @@ fn call_builtin_inner(m: &mut Model, site: &ScopeRef, name: &str, args: Vec<V>) 
                 _ => unknown("abs of non-int"),
             }
         }
+        "input" => {
+            match args.len() {
+                0 => {}
+                1 => match &args[0] {
+                    // prompt: written and flushed before the read
+                    V::Str(p) => {
+                        let p = p.clone();
+                        m.emit_text(&p)?;
+                    }
+                    _ => return throw("argument error: input"),
+                },
+                _ => return throw("argument error: input"),
+            }
+            let line = m.read_input(true)?;
+            match String::from_utf8(line) {
+                Ok(s) => Ok(V::Str(s)),
+                Err(_) => throw("value error: input failed: stream did not contain valid UTF-8"),
+            }
+        }
+        "read" | "read_bytes" => {
+            if !args.is_empty() {
+                return throw("argument error");
+            }
+            let rest = m.read_input(false)?;
+            if name == "read_bytes" {
+                return Ok(V::Bytes(rest));
+            }
+            match String::from_utf8(rest) {
+                Ok(s) => Ok(V::Str(s)),
+                Err(_) => throw("value error: input failed: stream did not contain valid UTF-8"),
+            }
+        }
+        "interact" | "interact_lines" => {
+            let rest = m.read_input(false)?;
+            let text = match String::from_utf8(rest) {
+                Ok(s) => s,
+                Err(_) => return throw("value error: interact: input failed"),
+            };
+            let mut cur = if name == "interact" {
+                V::Str(text)
+            } else {
+                V::List(text.split_terminator('\n').map(|w| V::Str(w.to_string())).collect())
+            };
+            for a in args {
+                match &a {
+                    V::Func(f) => cur = m.call_func_at(site, f, vec![cur])?,
+                    _ => return throw("type error: not callable"),
+                }
+            }
+            if name == "interact" {
+                match display(&cur, false) {
+                    Some(s) => m.emit_text(&s)?,
+                    None => return unknown("printing a value the model cannot render"),
+                }
+                return Ok(V::Null);
+            }
+            // one line per element; a lazy result is forced element by element, each element
+            // written before the next one is computed
+            match &cur {
+                V::Dict(d) if d.entries.len() >= 2 => return unknown("iterating a dict (hash order)"),
+                V::Stream(s) => {
+                    let mut s = s.clone();
+                    while let Some((x, rest)) = m.stream_next(&s)? {
+                        match display(&x, false) {
+                            Some(t) => m.emit_text(&format!("{}\n", t))?,
+                            None => return unknown("printing a value the model cannot render"),
+                        }
+                        s = rest;
+                    }
+                }
+                _ => {
+                    for x in m.iterate(&cur, "interact lines print")? {
+                        match display(&x, false) {
+                            Some(t) => m.emit_text(&format!("{}\n", t))?,
+                            None => return unknown("printing a value the model cannot render"),
+                        }
+                    }
+                }
+            }
+            Ok(V::Null)
+        }
         _ => crate::streams_model::call_stream_builtin(m, site, name, args),
     }
 }
 
 impl Model {
+    /// consume input: one line (up to and including the newline) or everything up to end of
+    /// input. A pending read error fires when the read reaches its offset; the bytes consumed
+    /// before it are lost, as they are for a real `BufRead`.
+    pub fn read_input(&mut self, line: bool) -> R<Vec<u8>> {
+        let start = self.in_pos.min(self.input.len());
+        let mut end = self.input.len();
+        if line {
+            if let Some(i) = self.input[start..].iter().position(|b| *b == b'\n') {
+                end = start + i + 1;
+            }
+        }
+        if let Some(k) = self.in_err_at {
+            // the error is delivered when a read is attempted at exactly offset k
+            let complete_before = line && end <= k && end > start && self.input[end - 1] == b'\n';
+            if k >= start && k <= self.input.len() && !complete_before {
+                self.in_pos = k;
+                self.in_err_at = None;
+                self.probe("read_fault_raised");
+                return throw("value error: input failed");
+            }
+        }
+        self.in_pos = end;
+        Ok(self.input[start..end].to_vec())
+    }
     pub fn emit_text(&mut self, text: &str) -> R<()> {
         let bytes = text.as_bytes();
         match self.out_budget {
